@@ -28,7 +28,9 @@ from props import c01
 RULE = ('pairs: generated reference (taxonomy depth 1-5, chains, single-node '
         'levels) + marker table (every list >= 3 genes of the query) + base '
         'query of 1-12 cells (integer counts, sometimes duplicated rows, no '
-        'cell constant on a marker list) at bootstrap factor 1, flatten / '
+        'cell constant on a marker list; every third base carries 1-4 cells with '
+        'NO count at all in chunks after the first) at bootstrap factor 1 (also '
+        'given as bootstrap_factor_lookup), flatten / '
         'drop_level (top, middle, absent) sometimes set and kept equal within '
         'a pair, iteration count and runner-up count kept equal; derived '
         'query = permutation | subset (>=1 cell kept) | superset (new random '
@@ -291,6 +293,8 @@ def run_one(ctx, problem, cfg, table, label, workdir=None, tmp_dir=True):
         return r
     fail = identical_cells_fail(problem, r['results'])
     r['pred_fail'] = fail
+    if any(not any(x) for x in problem['X']):
+        ctx.count('run:with-all-zero-cells')
     n_vec = len({tuple(x) for x in problem['X']})
     if n_vec < len(problem['X']):
         ctx.count('run:with-identical-rows')
@@ -435,6 +439,21 @@ def gen_base(rng, i):
     h = problem['tree']['hierarchy']
     if i % 7 == 3 and len(h) > 2:
         cfg['drop_level'] = rng.choice(h[1:-1])
+    if i % 3 == 1:
+        # cells with NO count at all (raw data: their CPM row is all zero),
+        # some of them twice, sitting in chunks after the first
+        n = len(problem['cell_ids'])
+        if n < 6:
+            extra = U.make_problem(rng, tree=problem['tree'], n_cells=6)
+            for c, _ in zip(fresh_ids(rng, problem['cell_ids'], 6 - n),
+                            range(6 - n)):
+                problem['cell_ids'].append(c)
+                problem['X'].append(draw_row(rng, problem))
+            n = len(problem['cell_ids'])
+        for j in rng.sample(range(n // 2, n), rng.randint(1, min(4, n - n // 2))):
+            problem['X'][j] = [0.0] * len(problem['query_genes'])
+        cfg['chunk_size'] = rng.randint(1, 2)
+    U.maybe_factor_lookup(rng, problem['tree'], cfg, prob=0.3, factor=1.0)
     return problem, cfg
 
 
@@ -450,12 +469,22 @@ def run_pairs(ctx, n_bases, kinds):
         from ctmverif import pipeline
         shared = (i % 2 == 1)
         tmp = (not shared) or (i % 4 == 1)
+        keep_enc = None
+        if shared and not tmp:
+            # files read in place: rows with differing numbers of stored
+            # entries, one sparse encoding for the base and its derived runs
+            c01.sparsify(rng, problem)
+            sanitize(rng, problem)
+            keep_enc = rng.choice(['csr', 'csr', 'csc'])
+            cfg['encoding'] = keep_enc
         with (pipeline.workdir('ctmverif_ll_pair_') if shared
               else contextlib.nullcontext(None)) as wd:
             base = run_one(ctx, problem, cfg, table, 'base', workdir=wd,
                            tmp_dir=tmp)
             for kind in kinds:
                 dp, dc, copies = derive(rng, problem, cfg, kind)
+                if keep_enc and rng.random() < 0.8:
+                    dc['encoding'] = keep_enc
                 check_pair(ctx, problem, cfg, dp, dc, kind, copies=copies,
                            base_run=base, table=table, workdir=wd,
                            tmp_dir=tmp)
